@@ -6,7 +6,7 @@ cd "$(dirname "$0")"
 name="$1"; tier="${2:-quick}"
 id="${name%%_*}"
 if ! git -C /repo diff --quiet; then echo "/repo is dirty"; exit 2; fi
-git -C /repo apply "seeded/$name/patch.diff" || { echo "patch does not apply"; exit 2; }
+git -C /repo apply "$PWD/seeded/$name/patch.diff" || { echo "patch does not apply"; exit 2; }
 ./check "$id" --tier "$tier" > "/tmp/seedtest_$name.log" 2>&1
 code=$?
 git -C /repo checkout -- .
